@@ -421,7 +421,7 @@ def main(tier: str, replay: str | None) -> None:
     small = enum_configs("MC_Discovery_enumA.cfg") + enum_configs("MC_Discovery_enumB.cfg")
     for i, c in enumerate(small):  # every small configuration, loss-free, both ways of meeting the CTL
         jobs.append({"cfg": c, "losses": [], "start": "named" if i % 2 else "heard", "kind": "small"})
-    sims = simulate_behaviours(900 if thorough else 30, chk.seed)
+    sims = simulate_behaviours(600 if thorough else 24, chk.seed)
     seen = set()
     for m_cfg, lost in sims:
         c = cfg_from_model(m_cfg)
@@ -432,16 +432,16 @@ def main(tier: str, replay: str | None) -> None:
         seen.add(k)
         jobs.append({"cfg": c, "losses": ls, "kind": "tlc-sim", "seed": rng.randint(0, 9)})
     n_sim = len(seen)
-    for i in range(150 if thorough else 10):  # larger generated configurations
+    for i in range(120 if thorough else 10):  # larger generated configurations
         c = gen_cfg(rng, rng.randint(0, 12), 8)
         ls = gen_losses(rng, c, 1) if i % 2 else []
         jobs.append({"cfg": c, "losses": ls, "kind": "generated", "seed": rng.randint(0, 9),
                      "start": rng.choice(["named", "heard"])})
     if thorough:  # long horizons: stability after completion, losses in later rounds
-        for i in range(24):
+        for i in range(16):
             c = gen_cfg(rng, rng.randint(1, 5), 3)
             jobs.append({"cfg": c, "losses": gen_losses(rng, c, 2), "kind": "long", "stop": False,
-                         "n_days": 4, "seed": i})
+                         "n_days": 3, "seed": i})
     race = race_from_trip(trip_trace)
     if race is not None:
         jobs.append(dict(race, kind="tlc-trip"))
@@ -502,6 +502,10 @@ def main(tier: str, replay: str | None) -> None:
             "virtual_days_run": round(sum(r["t_end"] for r in recs) / 86400, 1),
             "schema_samples_judged": sum(len(r["samples"]) for r in recs),
             "runs_with_dead_poller": len(died),
+            "dead_poller_runs_without_directed_race": [
+                {"kind": r["job"]["kind"], "cfg": r["cfg"], "losses": r["job"]["losses_run"], "seed": r["seed"],
+                 "dead": r["dead_pollers"], "complete_at_end": r["samples"][-1]["k"] == r["cfg"]}
+                for r in died if not r["job"].get("race")][:5],
             "loop_exceptions_seen": loopexc[:6],
             "judge_selfcheck_corrupted_traces_rejected": n_self,
             "drive_wall_s": drive_wall,
